@@ -269,6 +269,7 @@ LOGGING = ('log.', 'LOG.', 'logging.', 'print')
 class Exec:
     def __init__(self, fn_ast, contract, world, qual, src_path=''):
         self.fn, self.k, self.world, self.qual, self.src_path = fn_ast, contract, world, qual, src_path
+        self.root_k = contract          # the contract under proof (self.k changes while a callee is interpreted in place)
         self.vcs, self._seen = [], set()
         self.abstracted, self.dropped, self.interpreted = [], 0, 0
         self.paths = 0
